@@ -21,12 +21,21 @@
   save), quantified over every operation sequence; what the two `resetACTNUM` forms and the
   ZCORN-replacing copy constructor do with the cache and with `m_input_zcorn` is regenerated
   from EclipseGrid.cpp on every run (`Gen/GridCopy.lean`).
+
+  Third round (`Model/GridExt.lean`): the MINPV / MINPORV / MINPVV activity rule and the ACTNUM
+  mask of a MINPV pass on the object model (activity changes exactly by the rule, geometry of no
+  cell changes), the active ↔ global bijection for every ACTNUM, identities between
+  getCellDepth / getCellCenter / getCellThickness / getCellDims for arbitrary distorted cells and
+  under subdivision, RADIAL grids (`calculateCylindricalCellVol`, the radial branch of
+  `getCellVolume`, additivity and the annulus total), GRIDUNIT rescaling (volumes scale with the
+  cube), `MapAxes::transform` / `inv_transform` as mutually inverse maps.
 -/
 import OpmVerif.Proofs.Grid
 import OpmVerif.Proofs.GridEgrid
 import OpmVerif.Proofs.GridState
 import OpmVerif.Proofs.GridPos
 import OpmVerif.Proofs.GridFixup
+import OpmVerif.Proofs.GridExt
 import OpmVerif.Props.C07
 
 namespace OpmVerif.Props.C13
@@ -526,5 +535,220 @@ example : (∀ z, (witnessFix ⟨1, 1, 1⟩ (witnessFix ⟨1, 1, 1⟩ z).2).2 = 
   intro op hop
   simp only [List.mem_cons, List.mem_nil_iff, or_false] at hop
   rcases hop with rfl | rfl | rfl <;> rfl
+
+/-! # Third round: MINPV, bijection, distorted-cell identities, radial grids, GRIDUNIT, MapAxes -/
+
+open OpmVerif.GridExt
+
+/-- **global ↔ active is a bijection for every ACTNUM** (any integers, `> 0` = active):
+`a ↦ m_active_to_global[a]` is defined exactly on `[0, nactive)`, maps into the cells with
+ACTNUM > 0 (with `activeIndex` as inverse), is injective, and reaches every cell with ACTNUM > 0. -/
+theorem active_global_bijection (act : List Int) :
+    let m := resetACTNUM act
+    (∀ a, a < m.nactive ↔ ∃ g, globalOfActive m a = some g) ∧
+    (∀ a g, globalOfActive m a = some g → g < act.length ∧ (∃ v, act[g]? = some v ∧ v > 0) ∧
+        activeIndex m g = some a) ∧
+    (∀ a b g, globalOfActive m a = some g → globalOfActive m b = some g → a = b) ∧
+    (∀ g v, act[g]? = some v → v > 0 → ∃ a, a < m.nactive ∧ globalOfActive m a = some g) :=
+  active_map_bijection act
+
+example : (resetACTNUM [0, 2, -1, 1, 1]).a2g = [1, 3, 4] ∧ (resetACTNUM [0, 2, -1, 1, 1]).nactive = 3 := by
+  decide
+
+section MinpvRule
+variable {α : Type} [LE α] [DecidableLE α]
+
+/-- **`cellActiveAfterMINPV`**: for every cell in range the answer is: ACTNUM > 0 and (MINPV mode
+`Inactive` or `porv ≥ m_minpvVector[g]`); beyond the grid it throws. -/
+theorem minpv_cell_rule (n : Nat) (actnum : List Int) (s : Minpv α) (g : Nat) (porv : α) :
+    (n ≤ g → cellActiveAfterMINPV n actnum s g porv = none) ∧
+    (∀ a m, g < n → actnum[g]? = some a → s.vec[g]? = some m →
+      ∃ b, cellActiveAfterMINPV n actnum s g porv = some b ∧
+        (b = true ↔ a > 0 ∧ (s.mode = .inactive ∨ m ≤ porv))) := by
+  refine ⟨fun h => by unfold cellActiveAfterMINPV; rw [if_pos h], fun a m hg ha hm => ?_⟩
+  exact ⟨_, cellActiveAfterMINPV_eq n actnum s g porv hg ha hm, keeps_iff _ _ _ _⟩
+
+end MinpvRule
+
+section Minpv
+variable {α : Type} [Add α] [Sub α] [Mul α] [Div α] [Neg α] [NatCast α] [BEq α] [LE α] [DecidableLE α]
+
+/-- **A MINPV pass on one object** (`resetACTNUM` with the mask the rule produces), after any
+history satisfying the object invariant, for the operations as they are in the working tree:
+dims / COORD / ZCORN untouched, invariant re-established, `getCellVolume` of **every** cell —
+kept or removed — unchanged, cell `g` active afterwards iff it was active and (mode `Inactive` or
+`porv[g] ≥ minpv[g]`), and the number of active cells does not grow. -/
+theorem minpv_pass_changes_activity_only (abs : α → α) (fix : Dims → (Nat → α) → Nat × (Nat → α))
+    (s : GState α) (h : s.Inv abs) (mp : Minpv α) (porv : List α)
+    (hm : mp.vec.length = s.d.size) (hp : porv.length = s.d.size) :
+    let s' := step abs fix s (.reset (minpvMask s.actnum mp porv))
+    s'.d = s.d ∧ s'.coord = s.coord ∧ s'.zcorn = s.zcorn ∧ s'.Inv abs ∧
+    (∀ g, s'.getCellVolume abs g = s.getCellVolume abs g) ∧
+    (∀ g a m p, s.actnum[g]? = some a → mp.vec[g]? = some m → porv[g]? = some p →
+      (s'.cellActive g = true ↔ a > 0 ∧ (mp.mode = .inactive ∨ m ≤ p))) ∧
+    s'.maps.nactive ≤ s.maps.nactive :=
+  minpv_pass Effects.source reset_drops_cache_in_source abs fix s h mp porv hm hp
+
+end Minpv
+
+section MinpvRule2
+variable {α : Type} [LE α] [DecidableLE α]
+
+/-- The pass is idempotent, and with MINPV not in use it leaves the index maps as they are. -/
+theorem minpv_pass_idempotent (actnum : List Int) (mp : Minpv α) (porv : List α) :
+    minpvMask (minpvMask actnum mp porv) mp porv = minpvMask actnum mp porv :=
+  maskGo_idem _ _ _ _
+
+theorem minpv_inactive_mode_keeps_maps (actnum : List Int) (v porv : List α)
+    (hv : actnum.length = v.length) (hp : actnum.length = porv.length) :
+    resetACTNUM (minpvMask actnum { mode := .inactive, vec := v } porv) = resetACTNUM actnum := by
+  simp only [resetACTNUM, minpvMask, maskGo_inactive_g2a _ _ _ _ hv hp, maskGo_inactive_a2g _ _ _ _ hv hp,
+    maskGo_inactive_num _ _ _ hv hp]
+
+end MinpvRule2
+
+/-- `setMINPVV` replaces the vector (and switches MINPV on) for a vector of the grid's size and
+throws otherwise; `MINPV`/`MINPORV` fill the vector with one value. -/
+theorem minpv_setters {α : Type} [NatCast α] (n : Nat) (s : Minpv α) (v : List α) (x : α) :
+    (v.length = n → Minpv.setMINPVV n s v = some { mode := .eclStd, vec := v }) ∧
+    (v.length ≠ n → Minpv.setMINPVV n s v = none) ∧
+    (Minpv.init n (some x)).vec.length = n ∧ (Minpv.init n (none : Option α)).mode = .inactive := by
+  refine ⟨fun h => by simp [Minpv.setMINPVV, h], fun h => by simp [Minpv.setMINPVV, h], ?_, rfl⟩
+  simp [Minpv.init]
+
+/-- Non-vacuity: three cells over ℤ, thresholds 5; the first falls below, the second is inactive
+anyway, the third stays. -/
+example : minpvMask [1, 0, 2] ({ mode := .eclStd, vec := [5, 5, 5] } : Minpv Int) [4, 9, 5] = [0, 0, 2] ∧
+    minpvMask [1, 0, 2] ({ mode := .inactive, vec := [5, 5, 5] } : Minpv Int) [4, 9, 5] = [1, 0, 2] ∧
+    cellActiveAfterMINPV 3 [1, 0, 2] ({ mode := .eclStd, vec := [5, 5, 5] } : Minpv Int) 2 5 = some true := by
+  decide
+
+section DistortedCells
+variable {K : Type} [Field K] [CharZero K]
+
+/-- **Queries of one distorted cell are coherent**, for arbitrary corners (24 free coordinates):
+`getCellDepth` is the z of `getCellCenter`, `getCellDims[2]` is `getCellThickness`. -/
+theorem depth_center_thickness_coherent (sqrt : K → K) (c : Corners K) :
+    cellDepth c = (cellCenter c).2.2 ∧ (cellDims sqrt c).2.2 = cellThickness c :=
+  ⟨depth_eq_center_z c, rfl⟩
+
+/-- **Subdivision, arbitrary corners**: cutting in k: thicknesses add up, depth and centre of the
+parent are the means of the halves; cutting in i or j: centre and thickness are the means. -/
+theorem queries_under_subdivision (c : Corners K) :
+    cellThickness (splitLower c) + cellThickness (splitUpper c) = cellThickness c ∧
+    cellDepth c = (cellDepth (splitLower c) + cellDepth (splitUpper c)) / 2 ∧
+    cellThickness c = (cellThickness (splitLowerI c) + cellThickness (splitUpperI c)) / 2 ∧
+    cellThickness c = (cellThickness (splitLowerJ c) + cellThickness (splitUpperJ c)) / 2 :=
+  ⟨thickness_additive_k c, depth_split_k c, thickness_split_i c, thickness_split_j c⟩
+
+theorem center_under_subdivision (c : Corners K) :
+    cellCenter c =
+      (((cellCenter (splitLower c)).1 + (cellCenter (splitUpper c)).1) / 2,
+       ((cellCenter (splitLower c)).2.1 + (cellCenter (splitUpper c)).2.1) / 2,
+       ((cellCenter (splitLower c)).2.2 + (cellCenter (splitUpper c)).2.2) / 2) ∧
+    cellCenter c =
+      (((cellCenter (splitLowerI c)).1 + (cellCenter (splitUpperI c)).1) / 2,
+       ((cellCenter (splitLowerI c)).2.1 + (cellCenter (splitUpperI c)).2.1) / 2,
+       ((cellCenter (splitLowerI c)).2.2 + (cellCenter (splitUpperI c)).2.2) / 2) ∧
+    cellCenter c =
+      (((cellCenter (splitLowerJ c)).1 + (cellCenter (splitUpperJ c)).1) / 2,
+       ((cellCenter (splitLowerJ c)).2.1 + (cellCenter (splitUpperJ c)).2.1) / 2,
+       ((cellCenter (splitLowerJ c)).2.2 + (cellCenter (splitUpperJ c)).2.2) / 2) :=
+  ⟨center_split_k c, center_split_i c, center_split_j c⟩
+
+/-- **GRIDUNIT**: multiplying every coordinate by `s` multiplies the signed volume by `s³`
+(arbitrary corners). -/
+theorem vol_scales_with_cube (s : K) (c : Corners K) :
+    signedVolume (scaleCorners s c) = s ^ 3 * signedVolume c :=
+  signedVolume_scaleCorners s c
+
+end DistortedCells
+
+/-- `getCellCorners` commutes with `apply_GRIDUNIT` on COORD and ZCORN (`s ≠ 0`; degenerate
+pillars `zt == zb` stay degenerate), for every cell of every grid. -/
+theorem gridunit_rescales_corners {K : Type} [Field K] [DecidableEq K] {s : K} (hs : s ≠ 0) (d : Dims)
+    (coord zcorn : Nat → K) (i j k : Nat) :
+    let c := cellCorners d (applyGridunit s coord) (applyGridunit s zcorn) i j k
+    let c0 := scaleCorners s (cellCorners d coord zcorn i j k)
+    (∀ n, c.X n = c0.X n) ∧ (∀ n, c.Y n = c0.Y n) ∧ (∀ n, c.Z n = c0.Z n) :=
+  cellCorners_applyGridunit hs d coord zcorn i j k
+
+/-- Non-vacuity: a twisted cell over ℚ scaled by 3: volume × 27. -/
+example :
+    let c : Corners ℚ := { X := fun n => if n % 2 = 1 then 2 else 0,
+                            Y := fun n => if n / 2 % 2 = 1 then 3 else 0,
+                            Z := fun n => if n = 7 then 5 else if n ≥ 4 then 4 else 0 }
+    signedVolume (scaleCorners 3 c) = 27 * signedVolume c := by
+  intro c
+  have := vol_scales_with_cube (3 : ℚ) c
+  rw [this]; norm_num
+
+section RadialGrids
+variable {K : Type} [Field K] [LinearOrder K] [IsStrictOrderedRing K]
+
+/-- **Radial cell volume** (`calculateCylindricalCellVol`) is non-negative and additive under
+subdivision of a cell in r, in θ and in z (`0 ≤ r_i ≤ r_m ≤ r_o`, non-negative Δθ, Δz). -/
+theorem radial_volume_additive (pi ri rm ro t1 t2 z1 z2 : K) (hpi : 0 ≤ pi) (h0 : 0 ≤ ri) (h1 : ri ≤ rm)
+    (h2 : rm ≤ ro) (ht1 : 0 ≤ t1) (ht2 : 0 ≤ t2) (hz1 : 0 ≤ z1) (hz2 : 0 ≤ z2) :
+    0 ≤ cylVol pi (fun x => |x|) ri ro t1 z1 ∧
+    cylVol pi (fun x => |x|) ri rm t1 z1 + cylVol pi (fun x => |x|) rm ro t1 z1 = cylVol pi (fun x => |x|) ri ro t1 z1 ∧
+    cylVol pi (fun x => |x|) ri ro t1 z1 + cylVol pi (fun x => |x|) ri ro t2 z1 = cylVol pi (fun x => |x|) ri ro (t1 + t2) z1 ∧
+    cylVol pi (fun x => |x|) ri ro t1 z1 + cylVol pi (fun x => |x|) ri ro t1 z2 = cylVol pi (fun x => |x|) ri ro t1 (z1 + z2) :=
+  ⟨cylVol_nonneg pi ri ro t1 z1 hpi, cylVol_additive_r pi ri rm ro t1 z1 h0 h1 h2 ht1 hz1,
+   cylVol_additive_theta pi ri ro t1 t2 z1 h0 (le_trans h1 h2) ht1 ht2 hz1,
+   cylVol_additive_z pi ri ro t1 z1 z2 h0 (le_trans h1 h2) ht1 hz1 hz2⟩
+
+/-- **A layer of a RADIAL grid** with any number of rings (DRV ≥ 0, INRAD ≥ 0) and sectors
+(DTHETAV ≥ 0): the cell volumes add up to `π (R² − r₀²) (ΣΔθ / 360) Δz`, the exact volume of the
+annulus sector. -/
+theorem radial_layer_total (pi inrad dz : K) (drv dth : Nat → K) (h0 : 0 ≤ inrad) (hd : ∀ n, 0 ≤ drv n)
+    (ht : ∀ j, 0 ≤ dth j) (hz : 0 ≤ dz) (nx ny : Nat) :
+    runSum (fun i => runSum (fun j =>
+        cylVol pi (fun x => |x|) (radii inrad drv i) (radii inrad drv (i + 1)) (dth j) dz) ny) nx =
+      pi * ((radii inrad drv nx * radii inrad drv nx - inrad * inrad) * totalAngle dth ny * dz) / 360 :=
+  layer_total pi inrad dz drv dth h0 hd ht hz nx ny
+
+end RadialGrids
+
+/-- **`getCellVolume` of a RADIAL grid**: for the ZCORN array `initSpiderwebOrCylindricalGrid`
+builds, read back through the real corner index arithmetic, the radial branch returns the
+cylinder-sector volume of ring `i`, sector `j` with the cell's own DZ — for every cell of every
+grid, every COORD. -/
+theorem radial_cell_volume {K : Type} [Field K] [DecidableEq K] (pi : K) (abs : K → K) (d : Dims)
+    (rv thetav coord dz tops : Nat → K) {i j k : Nat} (hi : i < d.nx) (hj : j < d.ny) :
+    radialCellVolume pi abs d rv thetav coord (zcornRadial d dz tops) (getGlobalIndex d i j k) =
+      cylVol pi abs (rv i) (rv (i + 1)) (thetav j) (dz (i + j * d.nx + k * d.nx * d.ny)) :=
+  radialCellVolume_eq pi abs d rv thetav coord dz tops hi hj
+
+/-- Non-vacuity over ℚ (π replaced by 3): two rings, two sectors of 180°, `r = 1, 2, 4`:
+total = 3·(16 − 1)·(360/360)·2 = 90. -/
+example :
+    runSum (fun i => runSum (fun j =>
+        cylVol (3 : ℚ) (fun x => |x|) (radii 1 (fun n => if n = 0 then 1 else 2) i)
+          (radii 1 (fun n => if n = 0 then 1 else 2) (i + 1)) ((fun _ => 180) j) 2) 2) 2 = 90 := by
+  rw [radial_layer_total (3 : ℚ) 1 2 _ _ (by norm_num) (fun n => by split <;> norm_num) (fun _ => by norm_num)
+    (by norm_num)]
+  simp [radii, totalAngle, runSum]; norm_num
+
+section MapAxesThms
+variable {K : Type} [Field K]
+
+/-- **`MapAxes::inv_transform` and `MapAxes::transform` are mutually inverse** for the object built
+by `MapAxes::init` from three non-collinear points (whatever `length_factor`, whatever non-zero
+values the two `hypot` calls returned). -/
+theorem mapaxes_transform_inverse (lf x1 y1 x2 y2 x3 y3 hx hy : K) (hhx : hx ≠ 0) (hhy : hy ≠ 0)
+    (hcol : (x3 - x2) * (y1 - y2) - (y3 - y2) * (x1 - x2) ≠ 0) (x y : K) :
+    let m := MapAxes.init lf x1 y1 x2 y2 x3 y3 hx hy
+    m.invTransform (m.transform x y).1 (m.transform x y).2 = (x, y) ∧
+    m.transform (m.invTransform x y).1 (m.invTransform x y).2 = (x, y) :=
+  mapaxes_init_inverse lf x1 y1 x2 y2 x3 y3 hx hy hhx hhy hcol x y
+
+end MapAxesThms
+
+/-- Non-vacuity over ℚ: axes `(0,5) (0,0) (3,0)` with exact norms 3 and 5, origin shifted. -/
+example :
+    let m := MapAxes.init (1 : ℚ) 10 25 10 20 13 20 3 5
+    m.transform 2 7 = (12, 27) ∧ m.invTransform 12 27 = (2, 7) := by
+  decide +kernel
 
 end OpmVerif.Props.C13
